@@ -20,7 +20,8 @@ RULE = ("pools of 2-4 meshes from every producer (raw containers with list/tuple
         "procedural generators, merge incl. the same mesh twice, copy with/without attributes, subdivision results, boundary extraction) driven "
         "through histories of 4-12 steps: copy, merge, translate/rotate/scale/scale_xyz/normalize/fit_into_unit_cube/translate_to_origin/flatten "
         "and their inverses, direct vertex edits; non-trivial = the history contains a merge or copy followed by an edit of another mesh than "
-        "the one produced; distinct = (producers, history) hash")
+        "the one produced; distinct = (producers, history) hash"
+        "; variants: one-mesh merge lists, user attributes edited in place after copy, narrow integer index rows near capacity, float32-stored producers (tolerances follow the stored precision)")
 REQUIRED = {"shadow": 3000, "transform": 600, "copy": 100, "merge": 100, "inverse": 100, "normalize": 60}
 CASE_TIMEOUT = {"quick": 30.0, "thorough": 900.0}
 ASSUMPTIONS = ["pool meshes are built from data owned by the case (fresh arrays per producer call): aliasing with caller-owned arrays is reported as a note only",
